@@ -136,3 +136,25 @@ def kf_query_replace(f):
     raw = obs["raw"]
     undecodable = any(t[0] == "esc" and t[1] >= 0x80 for t in ref.tokens(ref.unquote(raw)))
     return undecodable and any("�" in k or "�" in v for k, v in items)
+
+
+import re as _re
+
+
+@recogniser("KF-COLON-FIRST-SEGMENT", "C03")
+def kf_colon_first_segment(f):
+    """no scheme, no authority, and the stored path begins with <scheme-chars>':' - the re-parse reads a scheme"""
+    obs = f["observed"]
+    parts = obs.get("parts")
+    if not parts or parts[0] != "" or parts[1] != "":
+        return False
+    m = _re.match(r"([A-Za-z0-9+\-.]+):", parts[2])
+    if not m or parts[2].startswith("/"):
+        return False
+    if f["clause"] == "components change when the canonical string is parsed again":
+        sc = obs["fields"].get("scheme")
+        return sc is not None and tuple(sc) == ("", m.group(1).lower())
+    if f["clause"] == "str(URL(str(url))) != str(url)":
+        # the scheme taken from the path is lower-cased by the re-parse
+        return obs["reparsed"].lower() == obs["str"].lower() or obs["reparsed"].startswith(m.group(1).lower() + ":")
+    return False
